@@ -198,6 +198,15 @@ def build_file(ids, rng, style=None, encs=None, defect=None, defect_at=None, unk
                 if eff is None:
                     eff = own = 'utf-8'
                 txt = json_text(v, style, rng)
+                if rng.random() < 0.2:
+                    # a foreign producer's spelling of a number: exponent, upper-case E, trailing zeros, overflow
+                    import re as _re
+                    from harness.abstraction import EXOTIC_FLOAT_LITERALS
+                    ms = list(_re.finditer(r'(?<![\w."\\-])-?\d+\.\d+(?![\w."])', txt))
+                    if ms:
+                        m = rng.choice(ms)
+                        lit = rng.choice(['1e999', '-1e999']) if rng.random() < 0.35 else rng.choice(EXOTIC_FLOAT_LITERALS)
+                        txt = txt[:m.start()] + lit + txt[m.end():]
                 if here and defect == 'json_truncated':
                     txt = txt[:max(1, len(txt) // 2)]
                     applied = True
